@@ -1745,6 +1745,9 @@ func callBuiltin(caller *frame, pos token.Pos, fn *ssa.Builtin, args []Val) Val 
 			caller.fault(nil, "nilderef", fmt.Sprintf("value method %v.%v called using nil pointer", args[1], args[2]))
 		}
 		return recv
+	case "Sizeof":
+		t := fn.Type().(*types.Signature).Params().At(0).Type()
+		return types.SizesFor("gc", "amd64").Sizeof(t)
 	case "SliceData":
 		return slicePtr{args[0].([]Val)}
 	case "StringData":
